@@ -37,11 +37,17 @@ f_dump_prog (void)
       d = (int)sp[-1].u.number;
       where = (sp->type == T_STRING) ? sp->u.string : 0;
     }
-  else
+  else if (st_num_arg == 1)
     {
       ob = sp->u.ob;
       d = 0;
       where = 0;
+    }
+  else
+    {
+      /* the efun is declared (object, ...): only the first argument is type-checked */
+      error ("Too many arguments to dump_prog()\n");
+      return;
     }
   if (!(prog = ob->prog))
     {
